@@ -243,8 +243,9 @@ def run(tier, seed, replay=None):
         selftest = {}
         r = tlc.model_check("Recovery", cfg_text=core.set_deviations(rcfg, ["Dev_NoBudgetDecrement"]), expect_ok=False, coverage=False, timeout=600)
         selftest["Dev_NoBudgetDecrement"] = r["errors"][:1]
-        r = tlc.model_check("CmdGrammar", cfg_text=core.set_deviations(gcfg, ["Dev_AssignLikeAfterOperator"]), expect_ok=False, coverage=False, timeout=600)
-        selftest["Dev_AssignLikeAfterOperator"] = r["errors"][:1]
+        for dev in findings.open_deviations(PID):
+            r = tlc.model_check("CmdGrammar", cfg_text=core.set_deviations(gcfg, [dev]), expect_ok=False, coverage=False, timeout=600)
+            selftest[dev] = r["errors"][:1]
         res.coverage["deviation_selftest"] = selftest
         shapes = universe(tier, rng, core.streams(tier, seed))
         texts = None
